@@ -113,6 +113,8 @@ type Exec struct {
 	Faults []Fault
 	// Echo: String fields with arguments return base+"|"+CanonArgs(args) (mirrors the fixtures).
 	Echo bool
+	// Compute, when set, gives the value of computed (method backed) fields from the arguments.
+	Compute func(n *Node, fd *Field, args map[string]interface{}) (Val, bool)
 
 	vars    map[string]Val
 	faults  map[string]Fault
@@ -275,6 +277,11 @@ func (x *Exec) selSet(n *Node, sels []*Sel, out map[string]interface{}, path []i
 				continue
 			}
 			v := n.F[s.Name]
+			if x.Compute != nil {
+				if cv, ok := x.Compute(n, fd, x.ExpectedArgs(fd, s)); ok {
+					v = cv
+				}
+			}
 			if x.Echo && len(fd.Args) > 0 && v.K == "string" && fd.Type.BaseName() == "String" && fd.Type.List == nil {
 				v = Str(v.S + "|" + CanonArgs(x.ExpectedArgs(fd, s)))
 			}
